@@ -34,7 +34,7 @@ def gen_cases(rnd, n, lang):
     for _ in range(n):
         has_header = rnd.random() < 0.7
         join = rnd.random() < 0.3
-        ih = ['id', 'name two', 'n3'][:rnd.choice([2, 3])]
+        ih = ['id', rnd.choice(['name two', 'name two', 'ta\tb', 'back\\slash']), 'n3'][:rnd.choice([2, 3])]     # a TAB / backslash inside a column name: written escaped in a["…"]
         jh = ['id', 'val']
         A = [['1', 'x', 'p'][:len(ih)], ['2', 'y', 'q'][:len(ih)], ['1', 'x', 'p'][:len(ih)]]
         # the join table may be empty or have no partner at all: under LEFT JOIN the null record must still be as wide as the join header
@@ -85,7 +85,8 @@ def gen_cases(rnd, n, lang):
             elif r < 0.42 and has_header:
                 i = rnd.randrange(len(ih))
                 nm = ih[i]
-                forms = ['a["%s"]' % nm, "a['%s']" % nm]
+                esc = nm.replace('\\', '\\\\').replace('\t', '\\t')
+                forms = ['a["%s"]' % esc, "a['%s']" % esc]
                 if nm.isidentifier():
                     forms.append('a.%s' % nm)
                 infos.append(['named', nm])
